@@ -1614,7 +1614,9 @@ def driver_source(specs, status, src_root):
         except Exception:  # noqa
             continue
         generic = any(uses_val(parse_type(t)) for _k, _n, t in order) or uses_val(parse_type(spec.get("ret", "Unit")))
-        args = " ".join(f"(fromJ (argAt args {i}))" for i in range(len(order)))
+        # a parameter that stands for untranslated code by slot name (`Nat → Option Nat`) comes as a table
+        args = " ".join((f"(fun k => ((fromJ (argAt args {i})) : List (Nat × Nat)).lookup k)" if t == "Lean:(Nat → Option Nat)"
+                         else f"(fromJ (argAt args {i}))") for i, (_k, _n, t) in enumerate(order))
         call = f"Tr.{spec['lean']}" + (" (α := Int)" if generic else "")
         imports.append(f"import FinamModel.Translated.{spec['lean']}")
         cases.append(f'  | "{spec["lean"]}" => toJ ({call} {args})')
